@@ -488,9 +488,14 @@ register("C02", ["Guard.Properties.C02"], run_C02)
 # =============================================================================== C03
 
 C03_DOC = {"s": 1, "t": "ab", "l": [1, 2, 3], "e": [], "m": {"a": 1}, "n": None, "f": 1.5, "b": True,
-           "lm": [{"x": 1, "y": 5}, {"x": 2, "y": 6}], "o": [1], "q": 2, "ls": ["ab", "c"]}
+           "lm": [{"x": 1, "y": 5}, {"x": 2, "y": 6}], "o": [1], "q": 2, "ls": ["ab", "c"], "mx": [{"t": 1}, {}, {"t": []}]}
+C03_LETS = ("let vmiss = zz\nlet vmix = mx[*].t\nlet vs = s\nlet vl = l\nlet vlit = [1, 2]\nlet vfilt = lm[ x == 9 ]\n"
+            "let vsome = some mx[*].t\nlet ve = e\n")
 C03_QUERIES = ["s", "t", "l", "l[*]", "e", "e[*]", "m", "m.a", "m.*", "n", "f", "b", "zz", "m.zz", "lm[*].x",
-               "lm[ x == 1 ].y", "lm[ x == 9 ].y", "o", "l[0]", "ls[*]", "some l[*]", "some lm[*].zz", "some zz"]
+               "lm[ x == 1 ].y", "lm[ x == 9 ].y", "o", "l[0]", "ls[*]", "some l[*]", "some lm[*].zz", "some zz",
+               # variable heads, queries that end in a filter, selections mixing resolved and missing values
+               "%vmiss", "%vmix", "%vs", "%vl", "%vl[*]", "%vlit", "%vlit[*]", "%vfilt", "%vsome", "%ve", "some %vmix", "mx[*].t",
+               "lm[ x == 9 ]", "lm[ x == 1 ]", "some mx[*].t", "%vmiss.a", "%vfilt.y"]
 C03_RHS = ["1", "2", "0", "\"ab\"", "\"a\"", "1.5", "true", "null", "[1, 2]", "[1]", "[\"ab\", 1]", "[]", "r[0,2]",
            "/a/", "q", "l", "l[*]", "zz", "{\"a\": 1}", "[[1]]"]
 UNARY = ["exists", "empty", "is_string", "is_list", "is_struct", "is_bool", "is_int", "is_float", "is_null"]
@@ -511,14 +516,14 @@ def run_C03(ctx):
         # unary
         for op in UNARY:
             n = rng.choice(nots)
-            rules = ("rule plain { %s%s %s }\nrule opnot { %s%s !%s }\nrule pre { %s%s%s %s }\nrule dbl { %s%s%s !%s }\n"
+            rules = C03_LETS + ("rule plain { %s%s %s }\nrule opnot { %s%s !%s }\nrule pre { %s%s%s %s }\nrule dbl { %s%s%s !%s }\n"
                      % (some, qq, op, some, qq, op, n, some, qq, op, n, some, qq, op))
             cases.append({"rules": rules, "data": json.dumps(C03_DOC)})
             meta.append(("unary", q, op, None))
         # binary
         for rhs in C03_RHS:
             n = rng.choice(nots)
-            rules = ("rule eq { %s%s == %s }\nrule ne { %s%s != %s }\nrule pre_eq { %s%s%s == %s }\nrule pre_ne { %s%s%s != %s }\n"
+            rules = C03_LETS + ("rule eq { %s%s == %s }\nrule ne { %s%s != %s }\nrule pre_eq { %s%s%s == %s }\nrule pre_ne { %s%s%s != %s }\n"
                      "rule inn { %s%s in %s }\nrule nin { %s%s not in %s }\nrule pre_in { %s%s%s in %s }\nrule pre_nin { %s%s%s !in %s }\n"
                      % (some, qq, rhs, some, qq, rhs, n, some, qq, rhs, n, some, qq, rhs,
                         some, qq, rhs, some, qq, rhs, n, some, qq, rhs, n, some, qq, rhs))
@@ -3428,7 +3433,7 @@ C08_TOKENS = ["rule", "when", "let", "{", "}", "[", "]", "(", ")", "<<", ">>", "
 def c08_mutate(rng, text, other):
     """byte/token mutation: truncation, deletion, duplication, splice, unicode / invalid-UTF-8 insertion"""
     b = text.encode("utf-8")
-    k = rng.randrange(9)
+    k = rng.randrange(10)
     n = len(b)
     if n == 0:
         return rng.choice(C08_TOKENS).encode()
@@ -3450,6 +3455,11 @@ def c08_mutate(rng, text, other):
         return b[:i] + bytes([rng.choice([0xff, 0xc3, 0x80, 0xfe, 0xed, 0xa0, 0xf4, 0x90])]) + b[i:]
     if k == 6:
         return b[:i] + (" " + rng.choice(C08_TOKENS) + " ").encode() + b[i:]
+    if k == 9:
+        # a syntax error followed by a long run of multi-byte text (diagnostics that quote a window of the input
+        # must not cut inside a character), at every alignment
+        tail = rng.choice(["日本語の注釈", "é", "😀", "ßü"]) * rng.randrange(15, 120)
+        return b[:i] + rng.choice([b" === ", b" ]] ", b" { ", b""]) + b"x" * rng.randrange(0, 4) + rng.choice(["# ", "", "\n# "]).encode() + tail.encode("utf-8") + b"\n" + b[i:]
     if k == 7:
         toks = text.split(" ")
         if len(toks) > 2:
